@@ -135,6 +135,8 @@ func cmdRun(args []string) {
 		}
 		var h Header
 		fatal(json.Unmarshal(sc.Bytes(), &h))
+		// which schedule is running (read back if the process dies inside a library call)
+		os.WriteFile(*outp+".progress", []byte(fmt.Sprintf("%d", n)), 0o644)
 		runSchedule(h, out)
 		n++
 	}
